@@ -10,8 +10,9 @@ ChainsF == {<<>>,
             <<Pf("/api/{i", <<>>)>>,
             <<Pf("", <<"e">>)>>}
 ResF    == {<<Pf("/api", <<>>), Pf("/r/{id}", <<"b">>)>>, <<Pf("/q", <<"c", "d">>)>>}
-PatsF   == {"/x", "/{id}", ""}
-PatsFor(ch) == IF ch = <<>> THEN {"/x", "/{id}"} ELSE IF ch = <<Pf("/api/{i", <<>>)>> THEN {"d}/x", "d}"} ELSE PatsF
+PatsF   == {"/x", "/{id}", "", "/r/{id}/x", "/q/x"}
+PatsFor(ch) == IF ch = <<>> THEN {"/x", "/{id}", "/q/x"} ELSE IF ch = <<Pf("/api/{i", <<>>)>> THEN {"d}/x", "d}"}
+               ELSE IF ch = <<Pf("/api", <<"a">>)>> THEN {"/x", "/{id}", "", "/r/{id}/x"} ELSE {"/x", "/{id}", ""}
 MwsF    == {<<>>, <<"m", "n">>}
 AllHF == {HF(ch, FALSE, p, ms, mw) : ch \in ChainsF, p \in PatsF \cup {"d}/x", "d}"}, ms \in {G, P}, mw \in MwsF}
 HOpsF == {x \in AllHF : x.pat \in PatsFor(x.chain)}
@@ -32,6 +33,7 @@ CfgsF == {Cfg(FALSE), Cfg(TRUE)}
 BasesF == {<<>>, <<HF(<<Pf("/api", <<"a">>)>>, FALSE, "/x", G, <<"m", "n">>), HF(<<>>, FALSE, "/x", P, <<>>), HF(<<Pf("/q", <<"c", "d">>)>>, TRUE, "", G, <<>>)>>}
 ProbesF == <<W("/api/x", <<>>), W("/api/{id}", [id |-> "7q"]), W("/api", <<>>), W("/api/v/x", <<>>), W("/api/v/{id}", [id |-> "7q"]), W("/api/v", <<>>),
              W("/api/{id}/x", [id |-> "7q"]), W("/api/r/{id}", [id |-> "7q"]), W("/q", <<>>), W("/x", <<>>), W("/{id}", [id |-> "7q"]),
+             W("/api/r/{id}/x", [id |-> "7q"]), W("/q/x", <<>>),
              A("/nope/7"), A("/api/v/7q/8"), A(""), A("*")>>
 MethodsF == <<"GET", "HEAD", "POST", "OPTIONS", "PUT", "TRACE">>
 UrlSetF == {UrlP("", st, ch, FALSE, p, m) : st \in BOOLEAN, ch \in {<<>>, <<Pf("/api", <<"a">>)>>, <<Pf("/api", <<"a">>), Pf("/v", <<"b", "c">>)>>}, p \in {"/x", "/{id}"},
